@@ -163,6 +163,15 @@ class DriverStep(Lane):
         return z3.Select(zs.arr, x) == z3.And(z3.Select(old, x), *[x != r for r in removed])
 
     def oracle(self, d, out):
+        obs = self.oracle_(d, out)
+        if out[0] != 'panic' and self.prop in ('C01', 'C13', 'C05') and out[1]['poll'].variant == 'Pending' and d['event'] != 'all-closed':
+            # closes the induction: the invariant assumed of the pre-state holds of the post-state
+            conn = out[1]['conn']; keys = [k for k, _ in conn.fields['resultmap'].items] + [k for k, _ in conn.fields['searchmap'].items]
+            inv = [z3.And(k >= 1, z3.Select(out[1]['zs'].arr, k)) for k in keys] + [a != b for i, a in enumerate(keys) for b in keys[:i]]
+            obs.append(('the representation invariant (routing keys pairwise distinct, positive, members of the in-use set) holds again after the step', and_all(inv) if inv else TRUE))
+        return obs
+
+    def oracle_(self, d, out):
         if out[0] == 'panic':
             if self.prop in ('C11', 'C01', 'C04', 'C13', 'C12', 'C05'):
                 return [('the driver never panics', FALSE)]
